@@ -31,7 +31,8 @@ RULE = ('runs = (generated tree with 0..4 mutations from all classes of C01/C03 
         '0; distinct = (input hash, command).')
 ANCHORS = ['cli:main', 'cli:VerifyCommand.__call__', 'cli:UpdateCommand.__call__',
            'cli:CreateCommand.__call__']
-REQUIRED = ['cli:main', 'strayman:body', 'strayman:truncated', 'cmd:verify', 'cmd:verify-k', 'cmd:update', 'cmd:update-sub',
+REQUIRED = ['cli:main', 'strayman:body', 'strayman:truncated',
+            'libhist_rounds_completed', 'cmd:verify', 'cmd:verify-k', 'cmd:update', 'cmd:update-sub',
             'cmd:create', 'outcome:rc1', 'outcome:rc0']
 ASSUMPTIONS = ['Manifest texts are valid UTF-8 (non-UTF-8 files are outside the '
                'statement)', 'an OSError is genuine if repeating the access on '
@@ -86,6 +87,8 @@ def units(tier, seed):
     u.append({'k': 'odd'})
     for fmt in ('gz', 'bz2', 'lzma', 'xz'):
         u.append({'k': 'strayman', 'fmt': fmt})
+    for i in range(n // 100):
+        u.append({'k': 'libhist', 'i': i, 'n': 8})
     return u
 
 
@@ -335,6 +338,76 @@ def run_repo(u, ctx):
             ctx.sample({'extra': extra}, 'repo')
 
 
+def exec_libhist(ctx, case):
+    """The library kept alive across several rounds on one loader object: update,
+    save (with re-compression settings that change from round to round), lookups
+    and a verification, with edits in between."""
+    from gemato.exceptions import GematoException
+    from gemato.recursiveloader import ManifestRecursiveLoader
+    from vf.checks import c03
+    with common.Scratch('vf-c18l-') as d:
+        root = os.path.join(d, 't')
+        scenario.rebuild(root, case)
+        ctx.case(sig=('libhist', len(case['rounds'])), case=case, klass='libhist')
+        m = None
+        for rnd, r in enumerate(case['rounds']):
+            for ed in r['edits']:
+                c03.apply_edit(root, ed)
+            try:
+                if m is None or r.get('fresh'):
+                    m = ManifestRecursiveLoader(os.path.join(root, 'Manifest'),
+                                                verify_openpgp=False,
+                                                hashes=['SHA256'], allow_create=True)
+                m.update_entries_for_directory(r['scope'] if os.path.isdir(
+                    os.path.join(root, r['scope'])) else '')
+                m.save_manifests(force=r['force'], compress_watermark=r['watermark'],
+                                 compress_format=r['format'], sort=r['sort'])
+                ctx.count('libhist_rounds_completed')
+                m.find_path_entry('no/such/file')
+                m.find_dist_entry('no-such-dist')
+                m.assert_directory_verifies('', fail_handler=lambda e: True)
+            except GematoException:
+                ctx.count('libhist_round_raised_library_exception')
+                return
+            except OSError as exc:
+                if genuine(exc):
+                    ctx.count('libhist_round_raised_oserror')
+                    return
+                ctx.violation('spurious-oserror:' + adapt.exc_key(exc), 'library history '
+                              'round %d raised %r' % (rnd, exc), case, {'round': rnd})
+                return
+            except Exception as exc:
+                ctx.violation('internal-error:' + adapt.exc_key(exc), 'library history '
+                              '(one loader, round %d) died with %r' % (rnd, exc), case,
+                              {'round': rnd})
+                return
+
+
+def run_libhist(u, ctx):
+    from vf.checks import c03
+    for j in range(u['n']):
+        rng = common.rng_for(ctx.seed, ID, 'libhist', u['i'], j)
+        try:
+            with common.Scratch('vf-c18g-') as gd:
+                case, layout, info = scenario.build(
+                    rng, os.path.join(gd, 'g'), CLASSES, rng.choice([0, 0, 1, 2]),
+                    {'p_split': 0.15, 'specials': False})
+        except RuntimeError:
+            ctx.discarded('generator')
+            continue
+        case['kind'] = 'libhist'
+        case['rounds'] = [{'edits': c03.gen_edits(rng, None, rng.randint(0, 3)) if k else [],
+                           'scope': '', 'force': rng.random() < 0.4,
+                           'sort': rng.random() < 0.5, 'fresh': rng.random() < 0.1,
+                           'watermark': rng.choice([None, 0, 0, 100, 10**6]),
+                           'format': rng.choice(['gz', 'bz2', 'lzma', 'xz'])}
+                          for k in range(rng.randint(2, 4))]
+        exec_libhist(ctx, case)
+        if j == 0:
+            ctx.sample({'mutations': case['mutations'], 'rounds': case['rounds']},
+                       'libhist')
+
+
 def damaged_variants(fmt):
     """Deterministic list of (how, bytes): a compressed Manifest damaged in several
     ways (each decompressor fails differently: bad magic, truncated stream, damaged
@@ -350,6 +423,10 @@ def damaged_variants(fmt):
                     good[:k] + b'\xff' * min(10, n - k) + good[k + 10:]))
     out.append(('tail', good[:-4] + bytes(b ^ 0x5a for b in good[-4:])))
     out.append(('trailing-junk', good + b'junk after the stream'))
+    # ... and intact ones: a valid Manifest nobody references yet
+    out.append(('valid', good))
+    out.append(('valid-empty', mtext.compress(fmt, b'')))
+    out.append(('valid-ignore-only', mtext.compress(fmt, b'IGNORE nothing-here\n')))
     return out
 
 
@@ -365,7 +442,7 @@ def run_strayman(u, ctx):
     """A file that merely has a compressed-Manifest name (not referenced by any
     Manifest) holding damaged compressed data, in a sub-directory."""
     for how, raw in damaged_variants(u['fmt']):
-        for where in ('sub', 'sub/f'):
+        for where in ('sub', 'sub/f', ''):
             ctx.count('strayman:' + how.split('@')[0])
             exec_strayman(ctx, {'kind': 'strayman', 'fmt': u['fmt'], 'how': how,
                                 'where': where, 'raw': raw.hex(),
@@ -374,10 +451,10 @@ def run_strayman(u, ctx):
 
 def run_unit(u, ctx):
     {'tree': run_tree, 'text': run_text, 'repo': run_repo, 'odd': run_odd,
-     'strayman': run_strayman}[u['k']](u, ctx)
+     'strayman': run_strayman, 'libhist': run_libhist}[u['k']](u, ctx)
 
 
 def replay(case, ctx):
     case = {k: v for k, v in case.items() if k not in ('cmd', 'argv')}
     {'tree': exec_tree, 'text': exec_text, 'repo': exec_repo,
-     'strayman': exec_strayman}[case['kind']](ctx, case)
+     'strayman': exec_strayman, 'libhist': exec_libhist}[case['kind']](ctx, case)
